@@ -110,13 +110,22 @@ def gen_ops(ctx):
     files = cl.corpus()
     items = [(t, "d", "repo-schema", p) for p, t in files]
     for _ in range(1500 if quick else 12000):
-        items.append((g.text(g.comb(), True, "rand"), "", "random-combinator", None))
+        c = g.comb()
+        if rng.random() < 0.06:
+            c["name"] = g.ident(False, 5) + "." + rng.choice(sorted(PRIMS))
+        items.append((g.text(c, True, "rand"), "", "random-combinator" if "." not in c["name"] or c["name"].split(".")[1] not in PRIMS
+                      else "random-schema", None))
     for _ in range(60 if quick else 600):
         toks = []
         for _ in range(rng.randrange(2, 9)):
             c = g.comb()
-            if rng.random() < 0.1:
+            q = rng.random()
+            if q < 0.1:
                 c["name"] = rng.choice(sorted(PRIMS))     # skipped by the listing
+            elif q < 0.3:                                 # NOT skipped: namespaced / longer names
+                pn = rng.choice(sorted(PRIMS))
+                c["name"] = rng.choice([g.ident(False, 5) + "." + pn, pn + rng.choice(["x", "2", "_", "er"]),
+                                        g.ident(False, 5) + "." + pn + rng.choice(["x", "2"]), "x" + pn])
             toks += g.t_comb(c, True, arrow=c["func"])
         items.append((g.render(toks, "rand"), "", "random-schema", None))
     n_valid = 12 if quick else 120
